@@ -29,6 +29,7 @@ type OpResult struct {
 	fired     []bool
 	Extra     []*OpResult
 	Missing   int
+	Blocked   bool // the handler neither finished nor made a step for blockWatch
 }
 
 // Class is the verdict class of a response: "ok" (200), "reject" (400),
@@ -82,7 +83,11 @@ func (w *World) DoHTTP(t *Task, method, path string, body []byte, inj *Injection
 		req.Header.Set("Content-Type", "application/json")
 	}
 	rw := httptest.NewRecorder()
-	w.env.Handler().ServeHTTP(rw, req)
+	if w.guarded(t, func() { w.env.Handler().ServeHTTP(rw, req) }) {
+		res := &OpResult{Kind: "http", NoResponse: true, Blocked: true, Rec: rec, TransportNote: "handler blocked at " + w.SiteName(t.lastSite)}
+		res.Ticks = t.ticks
+		return res
+	}
 	res := &OpResult{Kind: "http", Status: rw.Code, Body: rw.Body.Bytes(), CType: rw.Header().Get("Content-Type"), Rec: rec}
 	res.Ticks = w.end(t)
 	return res
@@ -93,7 +98,14 @@ func (w *World) DoLib(t *Task, handle interface{}, inj *Injection) *OpResult {
 	rec := w.begin(t, inj)
 	res := &OpResult{Kind: "lib", Rec: rec, LibHandle: handle}
 	res.LibBefore = Deep(w.env.LibValue(handle))
-	result, pv, stack := w.env.LibCall(handle)
+	var result, pv interface{}
+	var stack string
+	if w.guarded(t, func() { result, pv, stack = w.env.LibCall(handle) }) {
+		res.NoResponse, res.Blocked = true, true
+		res.TransportNote = "MakeDecision blocked at " + w.SiteName(t.lastSite)
+		res.Ticks = t.ticks
+		return res
+	}
 	res.LibAfter = Deep(w.env.LibValue(handle))
 	if pv != nil {
 		res.Status = 400
